@@ -343,7 +343,7 @@ func runC09(p *P, r *R) {
 			for i := range b.Succs {
 				if relOn(ifi.Cond, i == 0, isState, isClosed) == "==" {
 					nEdge++
-					res := p.mustPass(fd, []Point{{b.Succs[i], -1}}, func(in ssa.Instruction) bool { return p.mCall("(*pendingData).clear").F(in) }, nil, nil)
+					res := p.mustPass(fd, []Point{{b.Succs[i], -1}}, func(in ssa.Instruction) bool { return p.evMust(in, p.mCall("(*pendingData).clear"), 2) }, nil, nil)
 					r.ob("R09.4", "(*Stream).fillDataToReadBuffer: data arriving for a closed stream is cleared (recycled)", p.ipos(ifi), res.OK, true, "%s", p.pathString(res))
 				}
 			}
@@ -591,7 +591,67 @@ func runC09(p *P, r *R) {
 		}
 		r.ob("R09.8", "(*linkedBuffer).recycle: clean() runs only after the main list was drained", p.pos(lbRecycle.Pos()), okOrder, true, "clean() returns wrappers to the pool without recycling their shared memory")
 	}
-	// Flush's deferred clean(): the send buffer must have been recycled/handed over first — by R09.1.
+	// ---- R09.12 who may forget a buffer's slices: a "forgetter" pops the main list and returns the wrappers to the
+	// object pool without recycling their shared memory (clean()). It may run only where the chain was drained
+	// (recycle, checked above), at the exit of Flush (whose every exit has disposed of the chain, R09.1), or after a
+	// recycle of the buffer on every path. Anywhere else it drops shared memory that is still owned.
+	var forgetters []*ssa.Function
+	for _, f := range p.fnList {
+		pops := false
+		for _, ci := range findInstrs(f, p.mCall("(*sliceList).popFront")) {
+			if isLoadOf(ci.(*ssa.Call).Call.Args[0], "linkedBuffer.sliceList") {
+				for _, ref := range *ci.(*ssa.Call).Referrers() {
+					if c, ok := ref.(*ssa.Call); ok && p.calleeName(&c.Call) == "putBackBufferSlice" {
+						nonShm := false // on the branch where the slice is known not to be shared memory there is nothing to recycle
+						for _, fct := range factsAt(c.Block()) {
+							cond, neg := stripNot(fct.Cond)
+							if isLoadOf(cond, "bufferSlice.isFromShm") && fct.Truth == neg {
+								nonShm = true
+							}
+						}
+						if !nonShm {
+							pops = true
+						}
+					}
+				}
+			}
+		}
+		if pops && len(findInstrs(f, p.mCall("(*bufferManager).recycleBuffer", "(*bufferManager).recycleBuffers"))) == 0 {
+			forgetters = append(forgetters, f)
+		}
+	}
+	r.role("forgetters (drop slices without recycling)", p.names(forgetters))
+	r.count("R09.12", "forgetter functions", len(forgetters), 1)
+	nCalls := 0
+	for _, g := range forgetters {
+		gm := p.mCallD(p.fname(g))
+		for _, f := range p.fnList {
+			for _, ci := range findInstrs(f, gm) {
+				nCalls++
+				fn := p.fname(f)
+				ok, why := false, ""
+				_, isDefer := ci.(*ssa.Defer)
+				host := f
+				if par := deferredClosureHost(f); par != nil && !isDefer {
+					host, isDefer = par, true // `defer func() { ...clean() }()`
+				}
+				switch {
+				case host == lbRecycle && f == host:
+					ok, why = true, "drain role (order checked by R09.8)"
+				case host == fl && isDefer:
+					ok, why = true, "runs at the exit of Flush, every exit of which has disposed of the chain (R09.1)"
+				default:
+					if _, isGo := ci.(*ssa.Go); !isGo && !isDefer {
+						// every path from the entry to the call has recycled a buffer or handed the chain over
+						bad := p.reachesWithout(Point{f.Blocks[0], -1}, ci, func(in ssa.Instruction) bool { return p.evMust(in, recycle, 2) }, nil)
+						ok, why = !bad, "preceded by recycle() on every path"
+					}
+				}
+				r.ob("R09.12", fn+": forgets the slices of a buffer ("+p.fname(g)+") only after they were recycled or handed over", p.ipos(ci), ok, true, "%s", why)
+			}
+		}
+	}
+	r.count("R09.12", "call sites of forgetters", nCalls, 2)
 }
 
 // c09RecyclesFirst: in writeFallback the recycle of the send buffer precedes every call whose error
@@ -616,4 +676,41 @@ func c09RecyclesFirst(p *P, wf *ssa.Function) bool {
 		}
 	}
 	return true
+}
+
+// deferredClosureHost: f is an anonymous function that its parent only ever defers (`defer func() {...}()`);
+// returns the parent.
+func deferredClosureHost(f *ssa.Function) *ssa.Function {
+	par := f.Parent()
+	if par == nil {
+		return nil
+	}
+	found := false
+	ok := true
+	allInstrs(par, func(in ssa.Instruction) {
+		var ops []*ssa.Value
+		for _, op := range in.Operands(ops) {
+			if *op == nil {
+				continue
+			}
+			v := *op
+			if mc, isMC := v.(*ssa.MakeClosure); isMC {
+				v = mc.Fn
+			}
+			if v == ssa.Value(f) {
+				if _, isMC := in.(*ssa.MakeClosure); isMC {
+					continue
+				}
+				if d, isD := in.(*ssa.Defer); isD && len(d.Call.Args) == 0 {
+					found = true
+				} else {
+					ok = false
+				}
+			}
+		}
+	})
+	if found && ok {
+		return par
+	}
+	return nil
 }
